@@ -376,6 +376,9 @@ class Visitor(ast.NodeVisitor):
             self, node: ast.FormattedValue
         ) -> Union[str, Placeholder]:
             """Format the node value."""
+            # Python evaluates the value before the format specification (*e.g.*, ``f"{(w := x):{w}}"``).
+            recomputed_value = self.visit(node.value)
+
             recomputed_format_spec = None  # type: Optional[Union[str, Placeholder]]
             if node.format_spec is not None:
                 # The following assert serves only documentation purposes so that the code is easier to follow.
@@ -383,23 +386,20 @@ class Visitor(ast.NodeVisitor):
                 recomputed_format_spec = self.visit(node.format_spec)
                 assert isinstance(recomputed_format_spec, (str, Placeholder))
 
-            recomputed_value = self.visit(node.value)
-
             # Please see "NOTE ABOUT PLACEHOLDERS AND RE-COMPUTATION"
             if recomputed_format_spec is PLACEHOLDER or recomputed_value is PLACEHOLDER:
                 return PLACEHOLDER
 
-            fmt = ["{"]
             # See https://docs.python.org/3/library/ast.html#ast.FormattedValue for these
             # constants
             if node.conversion == -1:
-                pass
+                converted_value = recomputed_value
             elif node.conversion == 115:
-                fmt.append("!s")
+                converted_value = str(recomputed_value)
             elif node.conversion == 114:
-                fmt.append("!r")
+                converted_value = repr(recomputed_value)
             elif node.conversion == 97:
-                fmt.append("!a")
+                converted_value = ascii(recomputed_value)
             else:
                 raise NotImplementedError(
                     "Unhandled conversion of a formatted value node {!r}: {}".format(
@@ -407,12 +407,15 @@ class Visitor(ast.NodeVisitor):
                     )
                 )
 
-            if recomputed_format_spec is not None:
-                fmt.append(f":{recomputed_format_spec}")
-
-            fmt.append("}")
-
-            return "".join(fmt).format(recomputed_value)
+            # NOTE: We must not paste the format specification into a format string since it may contain
+            # curly braces (*e.g.*, as the fill character).
+            assert recomputed_format_spec is None or isinstance(
+                recomputed_format_spec, str
+            )
+            return format(
+                converted_value,
+                recomputed_format_spec if recomputed_format_spec is not None else "",
+            )
 
         def visit_JoinedStr(self, node: ast.JoinedStr) -> Union[str, Placeholder]:
             """Visit the values and concatenate them."""
@@ -771,7 +774,7 @@ class Visitor(ast.NodeVisitor):
         # Short-circuit tracing the all quantifier over a generator expression
         # fmt: off
         if (
-                func == builtins.all  # pylint: disable=comparison-with-callable
+                func is builtins.all
                 and len(node.args) == 1
                 and isinstance(node.args[0], ast.GeneratorExp)
         ):
@@ -797,8 +800,14 @@ class Visitor(ast.NodeVisitor):
             for keyword in node.keywords:
                 if keyword.arg is None:
                     kw = self.visit(node=keyword.value)
-                    for key, val in kw.items():
-                        kwargs[key] = val
+
+                    # Please see "NOTE ABOUT PLACEHOLDERS AND RE-COMPUTATION"
+                    if kw is PLACEHOLDER:
+                        return PLACEHOLDER
+
+                    # Python asks only for ``keys()`` and ``__getitem__`` of the mapping which is unpacked.
+                    for key in kw.keys():
+                        kwargs[key] = kw[key]
 
                 else:
                     kwargs[keyword.arg] = self.visit(node=keyword.value)
